@@ -91,3 +91,106 @@ Theorem C16_no_missing :
   exists c, dec1 bounds meth tpi tp i = Some c.
 Proof. exact no_missing. Qed.
 Print Assumptions C16_no_missing.
+
+(* Bounds, one subsampled dimension (cfdm's reading of CF 8.3.9): a subarea
+   that starts a continuous area covers cells a..b, any other a+1..b; the
+   bounds of cell i are two consecutive points of n+1 equally spaced points
+   between the two bounds tie points, n the number of cells. *)
+Theorem C16_bounds_spec :
+  forall meth tpi tp m a b i,
+  incr tpi -> nth_error tpi m = Some a -> nth_error tpi (S m) = Some b -> 2 <= b - a ->
+  let lo := if first_at true tpi m then a else S a in
+  let f := f1 meth (mkA a b m (nsub tpi m) (first_at true tpi m)) (tpv tp m) (tpv tp (S m)) in
+  lo <= i <= b ->
+  dec1 true meth tpi tp i =
+  Some [f (qn (i - lo) / qn (b + 1 - lo))%Q; f (qn (S (i - lo)) / qn (b + 1 - lo))%Q].
+Proof. exact bounds_spec. Qed.
+Print Assumptions C16_bounds_spec.
+
+(* Consecutive cells of a subarea share a bound (identical terms, not merely equal values). *)
+Theorem C16_bounds_contiguous :
+  forall meth tpi tp m a b i,
+  incr tpi -> nth_error tpi m = Some a -> nth_error tpi (S m) = Some b -> 2 <= b - a ->
+  (if first_at true tpi m then a else S a) <= i -> S i <= b ->
+  exists x y z, dec1 true meth tpi tp i = Some [x; y] /\ dec1 true meth tpi tp (S i) = Some [y; z].
+Proof. exact bounds_contiguous. Qed.
+Print Assumptions C16_bounds_contiguous.
+
+(* Bounds tie points are reproduced exactly: the lower bound of the first cell
+   of a subarea and the upper bound of its last cell are its two bounds tie
+   points; hence subareas sharing a tie point agree at the shared boundary. *)
+Theorem C16_bounds_tie :
+  forall meth tpi tp m a b,
+  incr tpi -> nth_error tpi m = Some a -> nth_error tpi (S m) = Some b -> 2 <= b - a ->
+  let lo := if first_at true tpi m then a else S a in
+  exists x0 y0 x1 y1,
+    dec1 true meth tpi tp lo = Some [x0; y0] /\ (x0 == tpv tp m)%Q /\
+    dec1 true meth tpi tp b = Some [x1; y1] /\ (y1 == tpv tp (S m))%Q.
+Proof. exact bounds_tie. Qed.
+Print Assumptions C16_bounds_tie.
+
+Theorem C16_bounds_example :
+  map (dec1 true Linear [0; 3; 7] [0#1; 16#1; 32#1]%Q) [0; 3; 4; 7] =
+  [Some [0#4; 16#4]; Some [48#4; 64#4]; Some [64#4; 80#4]; Some [112#4; 128#4]]%Q.
+Proof. exact bounds_example. Qed.
+Print Assumptions C16_bounds_example.
+
+(* Which subareas exist: every pair of consecutive tie point indices more
+   than one apart, with its position in the tie point dimension, its number
+   along the subarea dimension, and flagged first iff it is the first pair or
+   follows a pair of adjacent indices. *)
+Theorem C16_subareas_spec :
+  forall tpi m a b,
+  nth_error tpi m = Some a -> nth_error tpi (S m) = Some b -> 2 <= b - a ->
+  In (mkA a b m (nsub tpi m) (first_at true tpi m)) (subareas tpi).
+Proof. exact subareas_spec. Qed.
+Print Assumptions C16_subareas_spec.
+
+(* Bi-linear interpolation equals the Appendix J formula
+   fl(fl(ua,uc,s2), fl(ub,ud,s2), s1): for every pair of subareas (one per
+   subsampled dimension) and every element the pair assigns.  Together with
+   C16_partition (every element is assigned by exactly one subarea per
+   dimension) and C16_subareas_spec this fixes every element.
+   Full statement (not proved): the same for a_ia <= i <= a_ib in both
+   dimensions, i.e. also read from the neighbouring subarea at a shared tie
+   point - proved in one dimension (C16_linear_spec), here only for the
+   elements a subarea assigns itself: C16_bilinear_spec_partial. *)
+Theorem C16_bilinear_spec_partial :
+  forall tpi2 tpi1 T A2 A1 i2 i1,
+  incr tpi2 -> incr tpi1 -> In A2 (subareas tpi2) -> In A1 (subareas tpi1) ->
+  cov A2 i2 = true -> cov A1 i1 = true ->
+  dec2 false tpi2 tpi1 T i2 i1 =
+  let s2 := (qn (i2 - a_ia A2) / qn (a_ib A2 - a_ia A2))%Q in
+  let s1 := (qn (i1 - a_ia A1) / qn (a_ib A1 - a_ia A1))%Q in
+  Some [fl (fl (tpv2 T (a_k A2) (a_k A1)) (tpv2 T (S (a_k A2)) (a_k A1)) s2)
+           (fl (tpv2 T (a_k A2) (S (a_k A1))) (tpv2 T (S (a_k A2)) (S (a_k A1))) s2) s1].
+Proof. exact bilinear_spec. Qed.
+Print Assumptions C16_bilinear_spec_partial.
+
+Theorem C16_bilinear_example :
+  exists x, dec2 false [0; 4] [0; 4; 8] [[0#1; 64#1; 128#1]; [1024#1; 2048#1; 4096#1]]%Q 1 5 = Some [x]
+            /\ (x == 700#1)%Q.
+Proof. exact bilinear_example. Qed.
+Print Assumptions C16_bilinear_example.
+
+(* Any subspace of the coordinates equals the same orthogonal selection of the
+   whole uncompressed array - including the two index patterns for which
+   __getitem__ returns the first / last tie point without uncompressing. *)
+Theorem C16_subspace :
+  forall meth tpi tp n ix,
+  incr tpi -> hd 0 tpi = 0 -> areas_ok tpi -> length tp = length tpi -> n = S (last tpi 0) ->
+  obs_equiv (getitem1 false meth n tpi tp [ix])
+            (ObsArr [length (positions n ix)]
+                    (take1 (dec1 false meth tpi tp) (positions n ix) [0])).
+Proof. exact subspace1. Qed.
+Print Assumptions C16_subspace.
+
+(* F16a again: with a one-point first area, coord[0] is the tie point while
+   coord.array[0] is missing. *)
+Theorem C16_subspace_unguarded_refuted :
+  exists tpi tp n ix, incr tpi /\ hd 0 tpi = 0 /\ length tp = length tpi /\ n = S (last tpi 0) /\
+    ~ obs_equiv (getitem1 false Linear n tpi tp [ix])
+                (ObsArr [length (positions n ix)]
+                        (take1 (dec1 false Linear tpi tp) (positions n ix) [0])).
+Proof. exact subspace1_unguarded_refuted. Qed.
+Print Assumptions C16_subspace_unguarded_refuted.
